@@ -177,6 +177,7 @@ class Output(BaseOutput):
         v.long_name = "time"
         v.standard_name = "time"
         v.units = f"seconds since {self.timer.reference_time}"
+        v.calendar = "proleptic_gregorian"  # The calendar of numpy
         if self.layout == "sparse":
             v = nc.createVariable("particle_count", "i", ("time",))
             v.long_name = "Number of particles"
